@@ -47,6 +47,8 @@ def compare(scen, ctx, impl_out, model_out):
         return 'driverError: ' + model_out['driverError']
     m = model_out.get('out')
     i = impl_out
+    if isinstance(i, dict) and 'classCreateError' in i:
+        return None   # the declared class is refused at creation (compared by the `process` op, not here)
     if scen['op'] == 'render' and isinstance(m, dict) and 'text' in m and isinstance(i, dict) and 'text' in i:
         try:
             mt = impl.expand_segments(ctx, m['text'])
@@ -57,9 +59,32 @@ def compare(scen, ctx, impl_out, model_out):
         if canon(m.get('tree')) != canon(i.get('tree')):
             return 'tree differs'
         return None
-    if canon(m) != canon(i):
+    cm, ci = canon(m), canon(i)
+    if scen['op'] == 'roundtrip' and has_set_type(scen):
+        # serialised sets come out in hash order: compare `d`/`d2` up to list order (C05: "up to set ordering")
+        cm, ci = sort_lists_in(cm, ('d', 'd2')), sort_lists_in(ci, ('d', 'd2'))
+    if cm != ci:
         return 'outputs differ'
     return None
+
+
+def has_set_type(scen):
+    text = json.dumps([scen.get('ty'), (scen.get('decl') or {}).get('classes')])
+    return any(f'"{o}"' in text for o in ('set', 'Set', 'frozenset', 'MutableSet')) or '"any"' in text or 'null]' in text
+
+
+def sort_lists(j):
+    if isinstance(j, list):
+        return sorted((sort_lists(x) for x in j), key=lambda x: json.dumps(x, sort_keys=True))
+    if isinstance(j, dict):
+        return {k: sort_lists(v) for k, v in j.items()}
+    return j
+
+
+def sort_lists_in(out, keys):
+    if not isinstance(out, dict):
+        return out
+    return {k: (sort_lists(v) if k in keys else v) for k, v in out.items()}
 
 
 def project(out, what):
@@ -139,8 +164,9 @@ if __name__ == '__main__':
     print(f'{len(res)} scenarios, {len(bad)} disagreements, {time.time()-t0:.1f}s; verdicts: {dict(hist)}')
     for s, i, m, d in bad[: int(os.environ.get("SHOW", "5"))]:
         print('---', s['id'], d[:1500])
-        print('  ty  :', json.dumps(s.get('ty'))[:600])
-        print('  val :', json.dumps(s.get('val'))[:400])
-        print('  decl:', json.dumps(s.get('decl'))[:1500])
-        print('  impl:', json.dumps(i)[:900])
-        print('  modl:', json.dumps(m.get('out', m))[:900])
+        W = int(os.environ.get('WIDTH', '700'))
+        print('  ty  :', json.dumps(s.get('ty'))[:W])
+        print('  val :', json.dumps(s.get('val'))[:W])
+        print('  decl:', json.dumps(s.get('decl'))[:2 * W])
+        print('  impl:', json.dumps(i)[:W])
+        print('  modl:', json.dumps(m.get('out', m))[:W])
